@@ -54,8 +54,8 @@ pub struct Interpreter<TStdlib: Stdlib, TStdIn: Input, TStdOut: Printer, TLpt1: 
     register_stack: RegisterStack,
 
     /// Holds addresses to jump back to,
-    /// together with the number of register frames at the time of the call
-    return_address_stack: Vec<(usize, usize)>,
+    /// together with the number of register frames and of parked values at the time of the call
+    return_address_stack: Vec<(usize, usize, usize)>,
 
     /// Holds addresses to RETURN to after a GOSUB
     go_sub_address_stack: Vec<usize>,
@@ -444,13 +444,19 @@ impl<TStdlib: Stdlib, TStdIn: Input, TStdOut: Printer, TLpt1: Printer>
                 ctx.halt = true;
             }
             Instruction::PushRet(address) => {
-                self.return_address_stack
-                    .push((*address, self.register_stack.len()));
+                self.return_address_stack.push((
+                    *address,
+                    self.register_stack.len(),
+                    self.value_stack.len(),
+                ));
             }
             Instruction::PopRet => {
-                let (address, register_frames) = self.return_address_stack.pop().unwrap();
+                let (address, register_frames, parked_values) =
+                    self.return_address_stack.pop().unwrap();
                 // EXIT SUB / EXIT FUNCTION inside a FOR loop leaves the loop's register frame behind
                 self.register_stack.truncate(register_frames);
+                // ... and inside a SELECT CASE the value that is being selected on
+                self.value_stack.truncate(parked_values);
                 ctx.opt_next_index = Some(address);
             }
             Instruction::GoSub(address_or_label) => {
